@@ -63,4 +63,53 @@ PROPS["C16"] = {
     "trusted": ["compress/flate, snappy determinism (fault-free and faulty runs compress identically)"],
 }
 
+PROPS["C18"] = {
+    "lean_modules": ["AvroModel.Props.C18"],
+    "required_theorems": ["total", "stringCodecRead_total", "parse_render", "rfc3339", "rfc3339_instant", "date_only",
+                          "format_parse", "fracNanos_trim", "parseFrac_render", "parseZone_render", "parseTime_safe"],
+    "harness": ["C18"],
+    "level_text": "Proof: over a model of time/parse.go that mirrors parseTime index by index (every in[k], in[a:b], remaining[i+1:] and the "
+                  "atoi bounds hints are possible panic outcomes; the range loop with its i/val/mult variables is modelled as such) Lean proves: "
+                  "(total) no byte string whatsoever makes parseTime or StringCodec.Read panic; (rfc3339) for every field tuple that fits the grammar's "
+                  "digit widths - in particular every valid one - every fraction of ANY length, both separators, Z or any +-hh:mm zone, parsing the "
+                  "rendered RFC 3339 string yields exactly the fields, nanoseconds = first nine fraction digits right-padded, offset = zone seconds; "
+                  "(date_only) every YYYY-MM-DD yields midnight UTC; (format_parse) parseTime(formatNano f) = f for all valid fields, nsec < 1e9, "
+                  "whole-minute offsets below 100 h. Tie: every generated string is parsed by the real library through StringCodec{}.Read, a record "
+                  "field of type time.Time and a null.Time field, AND by time.Parse; the driver requires implementation = time.Parse = Lean expectation "
+                  "(Unix seconds, nanoseconds, zone offset), Format(RFC3339Nano) = formatNano, written bytes = model, and model = implementation on a "
+                  "position-exhaustive mutation stream (drop/insert/replace/truncate, non-ASCII bytes) where any panic is a failing input.",
+    "level_note": "Trusted: Lean kernel; time.Date/time.FixedZone/time.Parse/Format (stdlib, compared with the Lean calendar arithmetic unixOf and with the renderer on every case); "
+                  "model-to-code tie is differential. Offsets of 100 h and more (three hour digits in Format) are outside format_parse.",
+    "rule": "One PRNG. Renderer-based valid strings: fraction length 0..30 x {'.', ','} x {Z, +05:30, -23:59} with digit patterns (zeros, nines, "
+            "trailing non-zero, random); every offset -23:59..+23:59; every day of the year for years 0,1,4,100,400,1900,1970,2000,2023,2024,9999 "
+            "(also as date-only strings); every hour/minute/second; years 0000..9999 (step 13 quick, every year thorough); random valid fields. "
+            "Formatted times: boundary and random instants in years 0000-9999, nanosecond patterns, whole-minute offsets up to +-99:59. "
+            "Mutation stream: 21 base strings (valid, truncated, non-ASCII, out-of-range fields) x every position x {truncate, drop, insert b, replace by b} "
+            "for 20 byte sequences b incl. 0x00 0x80 0xBF 0xC3 0xFF and multi-byte runes; random byte strings; random edits of valid strings; "
+            "length-prefix cases for StringCodec.Read (zero, negative, too long, boundary varints, truncated body).",
+    "trusted": ["time.Date, time.FixedZone (the model stops at their arguments; unixOf models their documented normalisation and is compared on every case)",
+                "time.Parse / Time.Format as the reference the property names (their output is compared with the Lean renderer / formatNano on every case)"],
+    "assumptions": ["the rune-decoding range loop is modelled on bytes: every byte visited before the loop stops is an ASCII digit, so rune starts and byte indices coincide (exercised with invalid UTF-8 and multi-byte runes at every position)"],
+}
+PROPS["C19"] = {
+    "lean_modules": ["AvroModel.Props.C19"],
+    "required_theorems": ["date_decode", "dateDecode_eq", "long_decode", "long_decode_nanos", "encode_inverts", "date_encode_inverts",
+                          "long_encode_inverts", "dateEncodeDay_floor", "longEncode_floor", "long_ns_exact", "long_decode_wraps"],
+    "harness": ["C19"],
+    "level_text": "Proof: integer model of DateCodec/LongCodec Read and Write (Go's int32/int64 wrap-around and truncated division explicit). Lean proves: "
+                  "every int32 day count d (negative included) decodes to instant d*86400 s; for each multiplier (1 ns, 1000 = timestamp-micros, 1e6 = "
+                  "timestamp-millis) every long l with l*mult representable in int64 decodes to exactly l*mult ns; Write then Read yields the floor of "
+                  "the time to the type's resolution for times before and after 1970 whenever that floor is representable (day in int32 / nanoseconds in int64); "
+                  "nanosecond resolution is lossless. Tie: real Codec.Read/Write built by Schema.Codec under caller-supplied schemas "
+                  "({type:int,logicalType:date}, {type:long}, timestamp-micros, timestamp-millis) and DateCodec{} directly; decoded instants and written "
+                  "bytes are judged by the specification (l*mult, floor) and compared with the model, including the overflowing regions.",
+    "level_note": "Trusted: Lean kernel; time.Date / time.Unix / UnixNano / UnixMicro / UnixMilli (modelled as goDateUnix, ofUnixNano, sec*k + nsec/(1e9/k); compared on every case); Int32/Int64 varint codecs (C17).",
+    "rule": "One PRNG. Days: 0, +-1, +-365/366, leap days, year 0000 / 9999 days, int32 limits and just outside, random int32 (uniform and small). "
+            "Longs per resolution: around 0, +-10^k, around +-2^63/mult, int64 limits, random (uniform, small, scaled). "
+            "Times for the write direction: boundary seconds (+-1, +-86400+-1, day -2 noon, leap days, years 0001/0000/9999, int64-nanosecond limits, int32-day limits) "
+            "x sub-resolution nanosecond patterns, random instants before and after 1970 in several magnitudes, with and without zone offsets.",
+    "trusted": ["time.Date day normalisation, time.Unix(0, n), Time.UnixNano/UnixMicro/UnixMilli"],
+    "assumptions": ["the multiplier chosen for each logicalType is observed through the schemas the harness supplies (swapping them is caught by the oracle)"],
+}
+
 NOT_APPLICABLE = {}
